@@ -31,8 +31,16 @@ class Boom(Exception):
     pass
 
 
+TUNNEL_FLOWS = ('tunnel403', 'tunnelcut', 'refuse')
+
+
 class SessRun(Run):
     mode = 'session'
+    proxy = False
+    tls_hosts = ()         # hosts fetched with https (proxy runs only: CONNECT first; their host key has port 443)
+
+    def keyt(self, k):
+        return (host_of(k), 443, True) if k in self.tls_hosts else (host_of(k), 80, False)
 
     def __init__(self, N, H, M, script=(), uses=2, **kw):
         Run.__init__(self, N, H, M, script=script, uses=uses, **kw)
@@ -85,7 +93,7 @@ class SessRun(Run):
             @asyncio.coroutine
             def acquire(self, host, port, use_ssl=False, host_key=None):
                 c = run.task_client.get(asyncio.current_task(), 0)
-                k = int(host[1:].split('.')[0])
+                k = int((host_key[0] if host_key else host)[1:].split('.')[0])
                 run.state[c] = 'acq'
                 run.log(e='start', c=c, k=k)
                 try:
@@ -132,8 +140,20 @@ class SessRun(Run):
                     raise
                 run._rtask_end(r, 'done')
 
-        self.pool = SP(max_host_count=self.M, resolver=net.resolver(), connection_factory=factory,
-                       ssl_connection_factory=factory, max_count=self.maxcount)
+        if self.proxy:
+            # every connection goes to the HTTP proxy (plain requests in absolute form, https through CONNECT); the
+            # per-host bookkeeping is still keyed by the target host
+            from wpull.proxy.client import HTTPProxyConnectionPool
+            net.add_host('proxy.test', '10.0.9.9')
+            net.listen('10.0.9.9', 3128, Srv())
+
+            class PSP(HTTPProxyConnectionPool, SP):
+                pass
+            self.pool = PSP(('proxy.test', 3128), max_host_count=self.M, resolver=net.resolver(),
+                            connection_factory=factory, ssl_connection_factory=factory, max_count=self.maxcount)
+        else:
+            self.pool = SP(max_host_count=self.M, resolver=net.resolver(), connection_factory=factory,
+                           ssl_connection_factory=factory, max_count=self.maxcount)
         self.http = Client(connection_pool=self.pool)
 
     def outer_of(self, inner):
@@ -179,7 +199,8 @@ class SessRun(Run):
                 self.net.connect_errors.append(ConnectionRefusedError(errno.ECONNREFUSED, 'refused'))
             try:
                 with self.http.session() as session:
-                    yield from session.start(Request('http://%s/' % host_of(k)))
+                    scheme = 'https' if k in self.tls_hosts else 'http'
+                    yield from session.start(Request('%s://%s/' % (scheme, host_of(k))))
                     if flow == 'early':
                         raise Boom()
                     if flow != 'nodl':
@@ -226,6 +247,10 @@ class SessRun(Run):
             if flow == 'cut':
                 ep.send(b'HTTP/1.1 200 OK\r\nContent-Length: 10\r\n\r\nabc')
                 ep.close()
+            elif flow == 'tunnel403':        # the proxy refuses the CONNECT
+                ep.send(b'HTTP/1.1 403 Forbidden\r\nContent-Length: 0\r\n\r\n')
+            elif flow == 'tunnelcut':        # the proxy closes instead of answering the CONNECT
+                ep.close()
             else:
                 ep.send(b'HTTP/1.1 200 OK\r\nContent-Length: 2\r\n\r\nhi')
         elif k == 'kill':
@@ -246,7 +271,7 @@ class SessRun(Run):
             st = self.state[c]
             if st == 'idle' and self.nuse[c] < self.uses and self._waiting(c):
                 for k in range(1, self.H + 1):
-                    for flow in b.get('flows', ('ok',)):
+                    for flow in (TUNNEL_FLOWS if k in self.tls_hosts else b.get('flows', ('ok',))):
                         out.append(['start', c, k, flow])
             elif st == 'use' and c in self.pending:
                 out.append(['reply', c])
@@ -278,10 +303,23 @@ class SessRun(Run):
 
 
 FLOWS = ('ok', 'cut', 'refuse', 'early', 'nodl')
+PROXY_FLOWS = FLOWS
 
 
-def random_run(rng, N, H, M, uses):
-    budgets = dict(cancel=rng.choice([0, 0, 1]), kill=rng.choice([0, 1]), flows=FLOWS)
+class ProxySessRun(SessRun):
+    """The same clients through wpull.proxy.client.HTTPProxyConnectionPool (--http-proxy / --https-proxy)."""
+    mode = 'proxy-session'
+    proxy = True
+
+    def __init__(self, N, H, M, tls_hosts=(), **kw):
+        SessRun.__init__(self, N, H, M, **kw)
+        self.tls_hosts = tuple(tls_hosts)
+
+
+
+def random_run(rng, N, H, M, uses, cls=None, flows=FLOWS, **kw):
+    cls = cls or SessRun
+    budgets = dict(cancel=rng.choice([0, 0, 1]), kill=rng.choice([0, 1]), flows=flows)
     stop_after = rng.randrange(4, 30)
 
     def chooser(run, fired):
@@ -294,7 +332,7 @@ def random_run(rng, N, H, M, uses):
             return ['go']
         return rng.choice(en)
 
-    r = SessRun(N, H, M, uses=uses)
+    r = cls(N, H, M, uses=uses, **kw)
     r.chooser = chooser
     r.execute()
     return r
@@ -318,10 +356,36 @@ def scenarios(quick, rng):
     for i in range(40 if quick else 600):
         N, H, M = cfgs[i % len(cfgs)]
         out.append(random_run(rng, N, H, M, rng.randrange(1, 4)))
+    # through the HTTP proxy pool
+    for f in PROXY_FLOWS:
+        r = ProxySessRun(1, 1, 1, script=[['start', 1, 1, f], ['go'], ['reply', 1], ['go'], ['start', 1, 1, 'ok'], ['go'],
+                                          ['reply', 1], ['go']], uses=2)
+        r.execute()
+        out.append(r)
+        for f2 in (('ok', 'refuse', 'tunnel403') if quick else PROXY_FLOWS):
+            r = ProxySessRun(2, 1, 1, script=[['start', 1, 1, f], ['start', 2, 1, f2], ['go'], ['reply', 1], ['go'],
+                                              ['reply', 2], ['go'], ['start', 2, 1, 'ok'], ['go']], uses=2)
+            r.execute()
+            out.append(r)
+    # https through the proxy: the CONNECT is refused / cut / the proxy cannot be reached
+    for f in TUNNEL_FLOWS:
+        for f2 in TUNNEL_FLOWS:
+            r = ProxySessRun(2, 1, 1, tls_hosts=(1,), uses=2,
+                             script=[['start', 1, 1, f], ['start', 2, 1, f2], ['go'], ['reply', 1], ['go'], ['reply', 2], ['go'],
+                                     ['start', 2, 1, f], ['go'], ['reply', 2], ['go']])
+            r.execute()
+            out.append(r)
+    for i in range(20 if quick else 300):
+        N, H, M = cfgs[i % len(cfgs)]
+        out.append(random_run(rng, N, H, M, rng.randrange(1, 4), cls=ProxySessRun, flows=PROXY_FLOWS,
+                              tls_hosts=((H,) if i % 2 else ())))
     return out
 
 
 def replay(rp):
-    r = SessRun(rp['N'], rp['H'], rp['M'], uses=rp['uses'], replay=rp['schedule'])
+    if rp.get('mode') == 'proxy-session':
+        r = ProxySessRun(rp['N'], rp['H'], rp['M'], tls_hosts=rp.get('tls_hosts', ()), uses=rp['uses'], replay=rp['schedule'])
+    else:
+        r = SessRun(rp['N'], rp['H'], rp['M'], uses=rp['uses'], replay=rp['schedule'])
     r.execute()
     return r
